@@ -1,6 +1,7 @@
 package props
 
 import (
+	"bytes"
 	"errors"
 	"fmt"
 	"runtime"
@@ -11,6 +12,7 @@ import (
 	"github.com/pion/stun/v3"
 	"github.com/pion/stun/v3/verifharness/core"
 	"github.com/pion/stun/v3/verifharness/gen"
+	"github.com/pion/stun/v3/verifharness/sim"
 )
 
 // Targeted multi-pause scenarios that the pairwise grid (one pause) cannot express.
@@ -85,6 +87,14 @@ func targetedDoWaitsForHandler(c *core.Ctx, noRetransmit bool) {
 func targetedCloseDuringCollectorTick(c *core.Ctx, variant int) {
 	c.Eval(1)
 	o := rigOpts{realCollector: true, useRoles: true, defaultAgent: variant%2 == 1, noConnClose: variant/2%2 == 1}
+	cp := "clock.Now" // only the collector goroutine reads the clock without a role
+	if variant >= 8 {
+		// deeper inside the tick: a retransmission is under way (the transaction has just been registered with the agent
+		// again, or its datagram is about to be written)
+		o.defaultAgent = false
+		o.rto = time.Second
+		cp = []string{"agent.Start.after", "conn.Write.before"}[variant%2]
+	}
 	r, err := newRig(o)
 	if err != nil {
 		c.Violate("newclient", "newclient", err.Error())
@@ -92,7 +102,19 @@ func targetedCloseDuringCollectorTick(c *core.Ctx, variant int) {
 		return
 	}
 	r.w.SetRole("driver")
-	p := r.w.AddPause("clock.Now", "client-internal", 1) // only the collector goroutine reads the clock without a role
+	var due *tx
+	if variant >= 8 {
+		due = r.newTx("Start", seqTID(0), 24)
+		if err := r.start(due); err != nil {
+			c.Violate("start-failed", "start-failed", err.Error())
+
+			return
+		}
+	}
+	p := r.w.AddPause(cp, "client-internal", 1)
+	if variant >= 8 {
+		r.w.SetNow(int64(1500 * time.Millisecond)) // past the first deadline: the next tick retransmits
+	}
 	select {
 	case <-p.Parked:
 	case <-time.After(10 * time.Second):
@@ -130,6 +152,19 @@ func targetedCloseDuringCollectorTick(c *core.Ctx, variant int) {
 	}
 	for _, pr := range r.closeAccounting() {
 		c.Violate(pr.Kind, pr.Key, map[string]interface{}{"options": o.String(), "problem": pr.Detail})
+	}
+	if due != nil {
+		// nothing is written for the transaction once Close has returned; its handler ran exactly once
+		closeRet := r.firstCloseReturn()
+		for _, wr := range r.conn.Writes() {
+			if wr.Stamp > closeRet {
+				c.Violate("write-after-close", "write-after-close", map[string]interface{}{"options": o.String(), "parked_at": cp,
+					"problem": fmt.Sprintf("a datagram was written at stamp %d, Close had returned at %d", wr.Stamp, closeRet), "ledger": r.describe()})
+			}
+		}
+		for _, pr := range r.judge(oracleSet{exactlyOnce: true, writes: true, closeRules: true}, true) {
+			c.Violate(pr.Kind, pr.Key, map[string]interface{}{"options": o.String(), "parked_at": cp, "problem": pr.Detail})
+		}
 	}
 	c.Count("targeted.close_during_collector_tick", 1)
 }
@@ -328,6 +363,18 @@ func targetedMassTimeout(c *core.Ctx, n int, retransmit bool) {
 }
 
 func c10Targeted(c *core.Ctx) {
+	c.Section("targeted-external-stop", 24, func(i int64, _ *gen.Rand) {
+		targetedExternalStop(c, int(i))
+		c.Distinct(uint64(i) | 16<<50)
+	})
+	c.Section("targeted-short-write", 4, func(i int64, _ *gen.Rand) {
+		targetedShortWrite(c, int(i))
+		c.Distinct(uint64(i) | 17<<50)
+	})
+	c.Section("targeted-ticker-follows-clock", 2, func(i int64, _ *gen.Rand) {
+		targetedTickerFollowsClock(c, int(i))
+		c.Distinct(uint64(i) | 18<<50)
+	})
 	c.Section("targeted-mass-timeout", 10, func(i int64, _ *gen.Rand) {
 		targetedMassTimeout(c, []int{99, 100, 101, 150, 250, 300, 1000, 101, 205, 330}[i], i >= 7)
 		c.Distinct(uint64(i) | 14<<50)
@@ -536,6 +583,14 @@ func targetedCloseFromClosedHandler(c *core.Ctx, variant int) {
 }
 
 func c15Targeted(c *core.Ctx) {
+	c.Section("targeted-noconnclose-timeout-reads", 2, func(i int64, _ *gen.Rand) {
+		targetedNoConnCloseTimeoutReads(c, int(i))
+		c.Distinct(uint64(i) | 19<<50)
+	})
+	c.Section("targeted-fallback-handler-calls-client", 4, func(i int64, _ *gen.Rand) {
+		targetedFallbackHandlerCallsClient(c, int(i))
+		c.Distinct(uint64(i) | 20<<50)
+	})
 	c.SectionSerial("targeted-close-from-closed-handler", 16, func(i int64, _ *gen.Rand) {
 		targetedCloseFromClosedHandler(c, int(i))
 		c.Distinct(uint64(i) | 15<<50)
@@ -548,8 +603,401 @@ func c15Targeted(c *core.Ctx) {
 		targetedNoConnCloseWaitsForReader(c, i == 1)
 		c.Distinct(uint64(i) | 11<<50)
 	})
-	c.SectionSerial("targeted-close-during-collector-tick", 8, func(i int64, _ *gen.Rand) {
+	c.Section("targeted-close-during-collector-tick", 16, func(i int64, _ *gen.Rand) {
 		targetedCloseDuringCollectorTick(c, int(i))
 		c.Distinct(uint64(i) | 9<<50)
 	})
+}
+
+// ---- scenarios added against the sixth wave of seeded changes ----
+
+// targetedExternalStop: the application shares the agent with the client (WithAgent) and stops a transaction on it
+// directly. Whatever the client makes of that event, the transaction's handler runs exactly once by the time the client
+// is closed.
+func targetedExternalStop(c *core.Ctx, variant int) {
+	c.Eval(1)
+	o := rigOpts{noRetransmit: variant&1 == 1, rto: time.Second, fallback: variant&2 != 0}
+	r, err := newRig(o)
+	if err != nil {
+		c.Violate("newclient", "newclient", err.Error())
+
+		return
+	}
+	a, b := r.newTx("Start", seqTID(0), 24), r.newTx("Start", seqTID(1), 28)
+	_ = r.start(a)
+	_ = r.start(b)
+	var serr error
+	if variant&4 == 0 {
+		serr = r.agent.Inner.Stop(seqTID(0))
+	} else {
+		serr = r.agent.Inner.StopWithError(seqTID(0), stun.ErrTransactionStopped)
+	}
+	if serr != nil {
+		c.Violate("external-stop", "external-stop", map[string]interface{}{"problem": "Agent.Stop of a transaction in flight returned " + serr.Error()})
+	}
+	switch variant / 8 % 3 {
+	case 0: // nothing else happens until Close
+	case 1:
+		r.deliver(seqTID(0), response(seqTID(0), "after-external-stop"), true)
+	default:
+		now := int64(0)
+		for k := 0; k <= r.maxAttempts()+1; k++ {
+			now += int64(100 * time.Second)
+			r.tickAt(now)
+		}
+	}
+	_ = r.close()
+	for _, t := range []*tx{a, b} {
+		if inv := t.invocations(); len(inv) != 1 {
+			c.Violate("handler-never-invoked", "exactly-once:external-stop", map[string]interface{}{"options": o.String(), "variant": variant,
+				"problem": fmt.Sprintf("transaction #%d (stopped on the shared agent by the application: %v): handler invocations %v after Close returned, exactly one expected", t.Seq, t == a, classesOf(inv)), "ledger": r.describe()})
+
+			return
+		}
+	}
+	c.Count("targeted.external_stop", 1)
+}
+
+// targetedShortWrite: the connection reports one byte less than it was given, without an error. Whatever Start makes of
+// it: if it returns an error the handler never runs, otherwise it runs exactly once.
+func targetedShortWrite(c *core.Ctx, variant int) {
+	c.Eval(1)
+	o := rigOpts{noRetransmit: variant&1 == 1, rto: time.Second}
+	r, err := newRig(o)
+	if err != nil {
+		c.Violate("newclient", "newclient", err.Error())
+
+		return
+	}
+	kind := "Start"
+	if variant&2 != 0 {
+		kind = "Do"
+	}
+	t := r.newTx(kind, seqTID(0), 24+4*variant)
+	r.conn.ShortNext(1)
+	done := make(chan struct{})
+	if kind == "Do" {
+		pre := r.conn.NWrites()
+		go func() { _ = r.do(t); close(done) }()
+		waitFor(func() bool { return t.returned() || r.conn.NWrites() > pre })
+	} else {
+		_ = r.start(t)
+		close(done)
+	}
+	earlyReturn := t.returned()
+	earlyErr := t.RetErr
+	r.deliver(seqTID(0), response(seqTID(0), "after-short-write"), true)
+	now := int64(0)
+	for k := 0; k <= r.maxAttempts()+1; k++ {
+		now += int64(100 * time.Second)
+		r.tickAt(now)
+	}
+	_ = r.close()
+	if !waitFor(t.returned) {
+		c.Violate("call-never-returned", "never-returned:"+kind+":short-write", map[string]interface{}{"options": o.String()})
+
+		return
+	}
+	<-done
+	inv := t.invocations()
+	problem := ""
+	switch {
+	case t.RetErr != nil && len(inv) != 0:
+		problem = fmt.Sprintf("%s returned %v, yet the handler was invoked: %v", kind, t.RetErr, classesOf(inv))
+	case t.RetErr == nil && len(inv) != 1:
+		problem = fmt.Sprintf("%s returned nil, handler invocations %v", kind, classesOf(inv))
+	case kind == "Do" && earlyReturn && earlyErr == nil && len(inv) == 0:
+		problem = "Do returned before its handler ran"
+	}
+	if problem != "" {
+		c.Violate("start-error-but-handler-invoked", "short-write:"+kind, map[string]interface{}{"options": o.String(), "problem": problem, "ledger": r.describe()})
+
+		return
+	}
+	c.Count("targeted.short_write", 1)
+}
+
+// targetedTickerFollowsClock: the client is given a Clock and keeps the library's own ticker collector. The clock jumps
+// an hour past every deadline: the ticker's next collections, which must read that clock, time the transaction out.
+func targetedTickerFollowsClock(c *core.Ctx, variant int) {
+	c.Eval(1)
+	o := rigOpts{realCollector: true, noRetransmit: true, rto: time.Second}
+	r, err := newRig(o)
+	if err != nil {
+		c.Violate("newclient", "newclient", err.Error())
+
+		return
+	}
+	if variant == 1 {
+		r.w.SetNow(-int64(40 * 365 * 24 * time.Hour)) // the clock is decades behind the wall clock ...
+	}
+	t := r.newTx("Start", seqTID(0), 24)
+	_ = r.start(t)
+	base := atomic.LoadInt32(&r.agent.Collects)
+	r.w.SetNow(r.w.VNow() + int64(time.Hour)) // ... or ahead of it; either way it has now passed the deadline
+	ok := waitFor(func() bool { return len(t.invocations()) > 0 || atomic.LoadInt32(&r.agent.Collects) > base+200 })
+	ticks := atomic.LoadInt32(&r.agent.Collects) - base
+	inv := t.invocations()
+	off := atomic.LoadInt32(&r.agent.OffClock)
+	_ = r.close()
+	switch {
+	case off > 0:
+		ex, _ := r.agent.OffClockExample.Load().(string)
+		c.Violate("collect-off-clock", "collect-off-clock", map[string]interface{}{"options": o.String(),
+			"problem": fmt.Sprintf("%d Collect calls of the ticker collector carried a time the client's Clock never showed (first: %s)", off, ex)})
+	case len(inv) == 0 && ticks > 200:
+		c.Violate("handler-never-invoked", "never-invoked:ticker-collector-with-clock", map[string]interface{}{"options": o.String(),
+			"problem": fmt.Sprintf("the client's clock is an hour past the deadline and the ticker collector has collected %d times since, no timeout was delivered", ticks)})
+	case !ok || len(inv) == 0:
+		c.Inconclusive(1)
+	default:
+		if inv[0].Class != "timeout" {
+			c.Violate("handler-never-invoked", "never-invoked:ticker-collector-with-clock", map[string]interface{}{"problem": "invocations " + fmt.Sprint(classesOf(inv))})
+		}
+		c.Count("targeted.ticker_follows_clock", 1)
+	}
+}
+
+// targetedClockMovesInsideTick: two requests fall due in the same tick; writing the first retransmission takes ten RTOs
+// of clock time. The second request's retransmission goes out at the later clock reading, and its next deadline counts
+// from there: a further tick without any clock movement repeats nothing.
+func targetedClockMovesInsideTick(c *core.Ctx, variant int) {
+	c.Eval(1)
+	rto := []time.Duration{time.Second, 300 * time.Millisecond, time.Hour}[variant%3]
+	o := rigOpts{rto: rto}
+	r, err := newRig(o)
+	if err != nil {
+		c.Violate("newclient", "newclient", err.Error())
+
+		return
+	}
+	a, b := r.newTx("Start", seqTID(0), 24), r.newTx("Start", seqTID(1), 28)
+	_ = r.start(a)
+	_ = r.start(b)
+	var moved int32
+	r.conn.OnWrite = func(n int) {
+		if n == 3 && atomic.CompareAndSwapInt32(&moved, 0, 1) { // the first retransmission of the tick
+			r.w.SetNow(r.w.VNow() + 10*int64(rto))
+		}
+	}
+	r.tickAt(int64(rto) + 1) // both first deadlines have passed
+	if n := r.conn.NWrites(); n != 4 || atomic.LoadInt32(&moved) != 1 {
+		c.Violate("write-count", "write-count:clock-moves-inside-tick", map[string]interface{}{"problem": fmt.Sprintf("%d writes after the first tick, 4 expected", n), "ledger": r.describe()})
+
+		return
+	}
+	r.conn.OnWrite = nil
+	for k := 0; k < 3; k++ {
+		r.tickAt(r.w.VNow()) // the clock stands still
+	}
+	// the request retransmitted AFTER the clock moved was last transmitted at the later reading; its next deadline is 2*RTO
+	// after that and cannot be due while the clock stands still. (The one retransmitted before the move is 10 RTOs old by
+	// now and legitimately due.)
+	late := b
+	if ws := r.writesFor(a, r.conn.Writes()); len(ws) >= 2 && ws[1].VTime > int64(rto)+1 {
+		late = a // the tick happened to serve the requests in the other order
+	}
+	if ws := r.writesFor(late, r.conn.Writes()); len(ws) != 2 {
+		c.Violate("write-count", "early-retransmission:clock-moves-inside-tick", map[string]interface{}{
+			"problem": fmt.Sprintf("the request retransmitted after the clock had moved was transmitted %d times in all; ticks without clock movement must not repeat it (2 expected)", len(ws)), "rto": rto.String(), "ledger": r.describe()})
+
+		return
+	}
+	_ = r.close()
+	c.Count("targeted.clock_moves_inside_tick", 1)
+}
+
+// targetedIdleReadErrors: the socket is idle and its read deadline expires over and over (hundreds of Reads return a
+// timeout error, no data). The reader stays; the answer that finally arrives reaches its transaction.
+func targetedIdleReadErrors(c *core.Ctx, n int) {
+	c.Eval(1)
+	o := rigOpts{fallback: true, noRetransmit: true, rto: time.Hour}
+	r, err := newRig(o)
+	if err != nil {
+		c.Violate("newclient", "newclient", err.Error())
+
+		return
+	}
+	t1 := r.newTx("Start", seqTID(0), 24)
+	_ = r.start(t1)
+	r.deliver(seqTID(0), response(seqTID(0), "before-idle"), true)
+	r.conn.FailReads(n)
+	if !waitFor(func() bool { return int(atomic.LoadInt32(&r.conn.ReadErrsServed)) >= n }) {
+		c.Inconclusive(1)
+		_ = r.close()
+
+		return
+	}
+	t2 := r.newTx("Start", seqTID(1), 28)
+	_ = r.start(t2)
+	delivered := r.deliver(seqTID(1), response(seqTID(1), "after-idle"), true)
+	inv := t2.invocations()
+	_ = r.close()
+	if !delivered || len(inv) != 1 || inv[0].Class != "response" {
+		c.Violate("not-delivered", "not-delivered:after-read-errors", map[string]interface{}{"options": o.String(),
+			"problem": fmt.Sprintf("after %d consecutive Reads that returned a timeout error and no data, the response to a new transaction was taken by the reader: %v; handler invocations: %v", n, delivered, classesOf(inv))})
+
+		return
+	}
+	c.Count("targeted.idle_read_errors", int64(n))
+}
+
+// targetedNoConnCloseTimeoutReads: WithNoConnClose, and the owner wakes the reader the usual way: from Close on, every
+// Read returns a timeout error. Read does return, so Close returns too, with the reader gone.
+func targetedNoConnCloseTimeoutReads(c *core.Ctx, variant int) {
+	c.Eval(1)
+	o := rigOpts{noConnClose: true, fallback: variant&1 == 1}
+	r, err := newRig(o)
+	if err != nil {
+		c.Violate("newclient", "newclient", err.Error())
+
+		return
+	}
+	r.agent.OnClosed = r.conn.ReleaseReadWithTimeouts
+	t := r.newTx("Start", seqTID(0), 24)
+	_ = r.start(t)
+	done := make(chan error, 1)
+	go func() { done <- r.close() }()
+	select {
+	case <-done:
+	case <-time.After(15 * time.Second):
+		c.Violate("stuck", "stuck:Close:reads-return-timeouts", map[string]interface{}{"options": o.String(),
+			"problem":                       "WithNoConnClose; from Close on every Read of the connection returns a timeout error (it does return); Close did not return",
+			"goroutines_inside_the_library": agentFrames(allStacks())})
+		r.conn.ReleaseRead()
+
+		return
+	}
+	for _, p := range r.closeAccounting() {
+		c.Violate(p.Kind, p.Key, map[string]interface{}{"options": o.String(), "problem": p.Detail})
+	}
+	c.Count("targeted.noconnclose_timeout_reads", 1)
+}
+
+// targetedFallbackHandlerCallsClient: the WithHandler handler is running (an unmatched message arrived) when another
+// goroutine calls Close; the handler then uses the client (Indicate, Start without handler). Everybody returns.
+func targetedFallbackHandlerCallsClient(c *core.Ctx, variant int) {
+	c.Eval(1)
+	var r *rig
+	inHandler, goOn := make(chan struct{}), make(chan struct{})
+	var once sync.Once
+	var nested atomic.Value
+	o := rigOpts{fallback: true, noConnClose: variant&1 == 1, noRetransmit: variant&2 != 0}
+	// the rig's own fallback handler is replaced by one that calls back into the client
+	w := sim.NewWorld()
+	rr := &rig{w: w, opts: o, delivered: map[[12]byte][][]byte{}}
+	rr.conn = sim.NewConn(w)
+	rr.coll = &sim.Collector{W: w}
+	rr.agent = sim.NewTapAgent(w)
+	rr.agent.VirtualClock = true
+	if o.noConnClose {
+		rr.agent.OnClosed = rr.conn.ReleaseRead
+	}
+	options := []stun.ClientOption{stun.WithClock(sim.Clock{W: w}), stun.WithCollector(rr.coll), stun.WithAgent(rr.agent), stun.WithHandler(func(e stun.Event) {
+		once.Do(func() {
+			close(inHandler)
+			<-goOn
+			e1 := rr.client.Indicate(request(seqTID(5), 20, 1))
+			e2 := rr.client.Start(request(seqTID(6), 20, 2), nil)
+			nested.Store(fmt.Sprintf("Indicate: %v, Start(nil handler): %v", e1, e2))
+		})
+	})}
+	if o.noConnClose {
+		options = append(options, stun.WithNoConnClose())
+	}
+	cl, err := stun.NewClient(rr.conn, options...)
+	if err != nil {
+		c.Violate("newclient", "newclient", err.Error())
+
+		return
+	}
+	runtime.SetFinalizer(cl, nil)
+	rr.client = cl
+	atomic.AddInt32(&openRigs, 1)
+	r = rr
+	go r.conn.Deliver(response(seqTID(9), "unmatched")) // nobody waits for this id: it goes to the fallback handler
+	select {
+	case <-inHandler:
+	case <-time.After(10 * time.Second):
+		c.Inconclusive(1)
+		close(goOn)
+		_ = r.close()
+
+		return
+	}
+	done := make(chan error, 1)
+	go func() { done <- r.close() }()
+	time.Sleep(20 * time.Millisecond) // let Close get as far as it can while the handler is still running
+	close(goOn)
+	select {
+	case <-done:
+	case <-time.After(15 * time.Second):
+		c.Violate("stuck", "stuck:Close:fallback-handler-uses-client", map[string]interface{}{"options": o.String(),
+			"problem":                       "the WithHandler handler was running when Close was called from another goroutine; the handler then called Indicate and Start(msg, nil); nobody returned",
+			"goroutines_inside_the_library": agentFrames(allStacks())})
+
+		return
+	}
+	c.Count("targeted.fallback_handler_calls_client", 1)
+	if v, _ := nested.Load().(string); v == "" {
+		c.Violate("stuck", "stuck:fallback-handler", map[string]interface{}{"problem": "the handler's own calls did not return"})
+	}
+}
+
+// targetedBuffersNotShared: client C abandons a retransmission (its agent refuses the re-registration); client A's
+// retransmission is parked right before its Write; client B retransmits meanwhile. Every client writes its own request.
+func targetedBuffersNotShared(c *core.Ctx, rounds int) {
+	for k := 0; k < rounds; k++ {
+		c.Eval(1)
+		mk := func(roles bool) (*rig, *tx) {
+			r, err := newRig(rigOpts{rto: time.Second, useRoles: roles})
+			if err != nil {
+				fatalHarness("newclient: " + err.Error())
+			}
+			t := r.newTx("Start", seqTID(int8(k%3)), 24+4*(k%7))
+			_ = r.start(t)
+
+			return r, t
+		}
+		rc, _ := mk(false)
+		ra, ta := mk(true)
+		rb, tb := mk(false)
+		// C: the retransmission is abandoned
+		atomic.StoreInt32(&rc.agent.FailStarts, 1)
+		rc.tickAt(int64(time.Second) + 1)
+		// A: parked before the Write of its retransmission
+		p := ra.w.AddPause("conn.Write.before", "ticker-A", 1)
+		doneA := make(chan struct{})
+		go func() { ra.w.SetRole("ticker-A"); ra.tickAt(int64(time.Second) + 1); close(doneA) }()
+		select {
+		case <-p.Parked:
+		case <-time.After(10 * time.Second):
+			c.Inconclusive(1)
+			p.Release()
+			<-doneA
+			_, _, _ = rc.close(), ra.close(), rb.close()
+
+			continue
+		}
+		// B: retransmits in full
+		rb.tickAt(int64(time.Second) + 1)
+		p.Release()
+		<-doneA
+		for name, pair := range map[string]struct {
+			r *rig
+			t *tx
+		}{"A (parked before its Write)": {ra, ta}, "B": {rb, tb}} {
+			for _, wr := range pair.r.conn.Writes() {
+				if !bytes.Equal(wr.Bytes, pair.t.Raw) {
+					c.Violate("write-differs", "write-differs:across-clients", map[string]interface{}{
+						"problem": fmt.Sprintf("client %s wrote %d bytes with transaction id %x; its only request has id %x", name, len(wr.Bytes), clip(wr.Bytes[8:]), pair.t.ID[:4]), "round": k})
+					_, _, _ = rc.close(), ra.close(), rb.close()
+
+					return
+				}
+			}
+		}
+		_, _, _ = rc.close(), ra.close(), rb.close()
+	}
+	c.Count("targeted.buffers_not_shared_rounds", int64(rounds))
 }
